@@ -310,6 +310,14 @@ impl EncOpts {
 }
 
 pub fn encode(ts: &TileSet, o: &EncOpts, rng: &mut Rng) -> Vec<u8> {
+	// any window size is the encoder's choice
+	comp::set_brotli_window(rng.range(10, 24) as u32);
+	let out = encode_inner(ts, o, rng);
+	comp::set_brotli_window(22);
+	out
+}
+
+fn encode_inner(ts: &TileSet, o: &EncOpts, rng: &mut Rng) -> Vec<u8> {
 	// tile data section
 	let mut ids: Vec<(u64, &Vec<u8>)> = ts.tiles.iter().map(|(k, v)| (zxy_to_id(k.0, k.1, k.2), v)).collect();
 	ids.sort_by_key(|e| e.0);
